@@ -417,6 +417,22 @@ func (env *rcEnv) pendingLive() []string {
 
 // quiesce records a quiescent observation (the caller has just returned from synctest.Wait).
 func (env *rcEnv) quiesce() {
+	// look again at every result the callers hold: what was delivered must not change afterwards (a response buffer
+	// that is reused for a later response would show here)
+	env.mu.Lock()
+	calls := append([]*rcCall(nil), env.calls...)
+	env.mu.Unlock()
+	for _, c := range calls {
+		c.mu.Lock()
+		rs := append([]hrpc.RPCResult(nil), c.results...)
+		c.mu.Unlock()
+		for k, r := range rs {
+			if r.Error == nil {
+				row, n := rcResultTag(r)
+				env.tr.Emit("recheck", "call", c.tag, "k", k+1, "row", row, "ncells", n)
+			}
+		}
+	}
 	env.tr.Emit("quiesce", "armed", !env.cli.ReadDeadline().IsZero(), "done", env.isDone(), "pending", env.pending())
 }
 
@@ -478,5 +494,4 @@ func (env *rcEnv) finish() {
 	env.wg.Wait()
 	<-env.sc.Ended()
 	time.Sleep(time.Second) // goroutines of the client asleep in a jitter hook wake up and see the closed client
-	VerifHook = nil
 }
